@@ -1,5 +1,5 @@
-(* C04 — executable model of the framing layer of src/substream/mod.rs (after the three `fix:`
-   commits): the incremental frame reader (Stream::poll_next, read_payload_size), the Sink
+(* C04 — executable model of the framing layer of src/substream/mod.rs (after the `fix:` commits
+   F-C04a..f): the incremental frame reader (Stream::poll_next, read_payload_size), the Sink
    (poll_ready / start_send / poll_flush) and send_framed, all against a scripted byte carrier.
    Bytes are numbers (< 256 in every run; nothing depends on the bound). Definitions only. *)
 From Coq Require Import List NArith Bool.
@@ -213,7 +213,8 @@ Definition take_frame (w : wstate) : option (list N * wstate) :=
             end
   end.
 
-(* Sink::poll_flush *)
+(* Sink::poll_flush. A frame whose write fails (error, or the carrier accepting 0 bytes of a
+   non-empty frame = WriteZero) stays in pending_out_frame. *)
 Fixpoint flush (script : list wev) (w : wstate) (sent : list N)
   : wres * wstate * list N * list wev :=
   match take_frame w with
@@ -226,12 +227,14 @@ Fixpoint flush (script : list wev) (w : wstate) (sent : list N)
       | WChunk _ :: s => (WOk, w, sent, s)
       end
   | Some (f, w0) =>
+      let keep := mkW (frames w0) (Some f) (pbytes w0) in
       match script with
-      | [] => (WPend, mkW (frames w0) (Some f) (pbytes w0), sent, [])
-      | WPending :: s => (WPend, mkW (frames w0) (Some f) (pbytes w0), sent, s)
-      | WErr :: s => (WIo, w0, sent, s)
+      | [] => (WPend, keep, sent, [])
+      | WPending :: s => (WPend, keep, sent, s)
+      | WErr :: s => (WIo, keep, sent, s)
       | WChunk n :: s =>
           let k := N.min n (lenN f) in
+          if (k =? 0) && negb (is_nil f) then (WIo, keep, sent, s) else
           let f' := dropN k f in
           flush s (mkW (frames w0) (if is_nil f' then None else Some f') (pbytes w0 - k))
                 (sent ++ takeN k f)
@@ -243,9 +246,30 @@ Definition poll_ready (bp : N) (script : list wev) (w : wstate) (sent : list N)
   : wres * wstate * list N * list wev :=
   if bp <=? pbytes w then flush script w sent else (WOk, w, sent, script).
 
-(* send_framed: write_all of each non-empty buffer, then flush; the future is polled until it is
-   ready, or it returned Pending and the script is exhausted (it is then dropped). Returns the result (WPend = still pending when the script
-   ran out), the number of polls that returned Pending, the bytes accepted by the carrier. *)
+Definition queue_nonempty (w : wstate) : bool :=
+  match curf w with Some _ => true | None => negb (is_nil (frames w)) end.
+
+(* SinkExt::flush(..).await as used by send_framed and close: poll_flush is polled until it is
+   ready, or it returned Pending with the script exhausted (the future is then dropped). Every
+   poll_flush call on a non-empty script consumes at least one event, so fuel = S (length script)
+   is never exhausted. Returns the number of polls that returned Pending. *)
+Fixpoint flush_all (fuel : nat) (script : list wev) (w : wstate) (sent : list N) (npend : N)
+  : wres * N * wstate * list N * list wev :=
+  match fuel with
+  | O => (WPend, npend, w, sent, script)
+  | S fu =>
+      let '(r, w1, s1, sc1) := flush script w sent in
+      match r with
+      | WPend => if is_nil sc1 then (WPend, npend + 1, w1, s1, sc1)
+                 else flush_all fu sc1 w1 s1 (npend + 1)
+      | _ => (r, npend, w1, s1, sc1)
+      end
+  end.
+
+(* write_all of each non-empty buffer, then flush; the future is polled until it is ready, or it
+   returned Pending and the script is exhausted (it is then dropped). Returns the result (WPend =
+   still pending when the script ran out), the number of polls that returned Pending, the bytes
+   accepted by the carrier. *)
 Fixpoint sf_run (ident : bool) (script : list wev) (bufs : list (list N)) (sent : list N) (npend : N)
   : wres * N * list N * list wev :=
   match script with
@@ -272,28 +296,80 @@ Fixpoint sf_run (ident : bool) (script : list wev) (bufs : list (list N)) (sent 
       end
   end.
 
-Definition send_framed (c : codec) (script : list wev) (m : list N) (sent : list N)
-  : wres * N * list N * list wev :=
-  if fitsb c m then
-    match c with
-    | Identity _ => sf_run true script (filter (fun b => negb (is_nil b)) [m]) sent 0
-    | Varint _ => sf_run false script (filter (fun b => negb (is_nil b)) [varint_enc (lenN m); m]) sent 0
-    end
-  else (WDenied, 0, sent, script).
+(* send_framed: frames queued through the Sink go out first (flush), then the size check, then
+   the frame is written directly. *)
+Definition send_framed (c : codec) (script : list wev) (w : wstate) (m : list N) (sent : list N)
+  : wres * N * wstate * list N * list wev :=
+  let '(r0, np, w1, s1, sc1) :=
+    if queue_nonempty w then flush_all (S (length script)) script w sent 0
+    else (WOk, 0, w, sent, script) in
+  match r0 with
+  | WOk =>
+      if fitsb c m then
+        let '(r, np', s2, sc2) :=
+          match c with
+          | Identity _ => sf_run true sc1 (filter (fun b => negb (is_nil b)) [m]) s1 np
+          | Varint _ => sf_run false sc1 (filter (fun b => negb (is_nil b)) [varint_enc (lenN m); m]) s1 np
+          end in
+        (r, np', w1, s2, sc2)
+      else (WDenied, np, w1, s1, sc1)
+  | _ => (r0, np, w1, s1, sc1)
+  end.
+
+(* poll_shutdown of the carrier, one call *)
+Definition shutdown1 (script : list wev) : wres * bool * list wev :=
+  match script with
+  | [] => (WPend, false, [])
+  | WPending :: s => (WPend, false, s)
+  | WErr :: s => (WIo, false, s)
+  | WChunk _ :: s => (WOk, true, s)
+  end.
+
+(* Sink::poll_close, one poll: poll_shutdown of the carrier, nothing else — frames queued by
+   start_send and not yet flushed are NOT written (callers flush first). The boolean says whether
+   the carrier completed a shutdown in this call. *)
+Definition poll_close (script : list wev) (w : wstate) (sent : list N)
+  : wres * wstate * list N * list wev * bool :=
+  let '(r2, sh, sc2) := shutdown1 script in (r2, w, sent, sc2, sh).
+
+(* substream.shutdown().await, errors ignored *)
+Fixpoint shutdown_all (script : list wev) (npend : N) : wres * N * bool * list wev :=
+  match script with
+  | [] => (WPend, npend + 1, false, [])
+  | WPending :: s => if is_nil s then (WPend, npend + 1, false, []) else shutdown_all s (npend + 1)
+  | WErr :: s => (WOk, npend, false, s)
+  | WChunk _ :: s => (WOk, npend, true, s)
+  end.
+
+(* Substream::close(self): shutdown of the carrier only (errors ignored); queued frames are dropped
+   with the substream *)
+Definition close_all (script : list wev) (w : wstate) (sent : list N)
+  : wres * N * wstate * list N * list wev * bool :=
+  let '(r, np, sh, sc2) := shutdown_all script 0 in (r, np, w, sent, sc2, sh).
 
 (* ---------------------------------------------------------------- operation histories *)
 
-Inductive op := OReady | OSend (m : list N) | OFlush | OFramed (m : list N).
+Inductive op :=
+| OReady | OSend (m : list N) | OFlush | OFramed (m : list N)
+| OClose            (* Sink::poll_close, one poll *)
+| OCloseAll.        (* Substream::close(self) driven to completion *)
 
-Record sys := mkSys { ws : wstate; sent : list N; wscript : list wev }.
-Definition init_sys (script : list wev) : sys := mkSys init_w [] script.
+Record sys := mkSys { ws : wstate; sent : list N; wscript : list wev; shut : bool }.
+Definition init_sys (script : list wev) : sys := mkSys init_w [] script false.
 
 Definition step (bp : N) (c : codec) (s : sys) (o : op) : (wres * N) * sys :=
   match o with
-  | OReady => let '(r, w, sn, sc) := poll_ready bp (wscript s) (ws s) (sent s) in ((r, 0), mkSys w sn sc)
-  | OFlush => let '(r, w, sn, sc) := flush (wscript s) (ws s) (sent s) in ((r, 0), mkSys w sn sc)
-  | OSend m => let '(r, w) := start_send c (ws s) m in ((r, 0), mkSys w (sent s) (wscript s))
-  | OFramed m => let '(r, np, sn, sc) := send_framed c (wscript s) m (sent s) in ((r, np), mkSys (ws s) sn sc)
+  | OReady => let '(r, w, sn, sc) := poll_ready bp (wscript s) (ws s) (sent s) in
+              ((r, 0), mkSys w sn sc (shut s))
+  | OFlush => let '(r, w, sn, sc) := flush (wscript s) (ws s) (sent s) in
+              ((r, 0), mkSys w sn sc (shut s))
+  | OSend m => let '(r, w) := start_send c (ws s) m in ((r, 0), mkSys w (sent s) (wscript s) (shut s))
+  | OFramed m => let '(r, np, w, sn, sc) := send_framed c (wscript s) (ws s) m (sent s) in
+                 ((r, np), mkSys w sn sc (shut s))
+  | OClose => let '(r, w, sn, sc, sh) := poll_close (wscript s) (ws s) (sent s) in
+              ((r, 0), mkSys w sn sc (shut s || sh))
+  | OCloseAll => let '(r, np, w, sn, sc, sh) := close_all (wscript s) (ws s) (sent s) in
+                 ((r, np), mkSys w sn sc (shut s || sh))
   end.
 
 Fixpoint run_ops (bp : N) (c : codec) (s : sys) (ops : list op) : list (wres * N) * sys :=
@@ -303,7 +379,7 @@ Fixpoint run_ops (bp : N) (c : codec) (s : sys) (ops : list op) : list (wres * N
               let '(rs, s2) := run_ops bp c s1 t in (r :: rs, s2)
   end.
 
-(* the messages a history of sink operations hands over *)
+(* the messages a history hands over *)
 Definition accepted (c : codec) (ops : list op) : list (list N) :=
   flat_map (fun o => match o with
                      | OSend m => if fitsb c m then [m] else []
